@@ -559,6 +559,12 @@ class Discharger:
             return self.d_index(key, a, s)
         if name == 'copy_from_slice':
             return self.d_copy(key, a, s)
+        if name == 'split_at_mut':
+            whole, idx = a.arg_val(bi, 0), a.arg_val(bi, 1)
+            al = self._vec_alloc_summands(a, whole, a.term_point(bi))
+            if al is not None and strip_sites(al[0]) == strip_sites(idx):
+                return 'D8', 'split index is the first summand of the allocation length n + Nt (<= len)'
+            return None
         if name == 'split_at':
             whole, idx = a.arg_val(bi, 0), a.arg_val(bi, 1)
             from .common import checked_sub_some
@@ -692,6 +698,21 @@ class Discharger:
                     return 'D8', 'range bounds are the summands of the allocation length len + Nt'
         return None
 
+    def _vec_alloc_summands(self, a, ref, p):
+        """(x, k) if the buffer behind `ref` is a Vec allocated as vec![_; x + k] (root of the reference, views removed)"""
+        base = ref
+        if base[0] == 'addr':
+            base = ('addr', base[1], tuple(e for e in base[2] if e[0] not in ('slice', 'i')), base[3])
+        bv = a.deref_val(base, p) if base[0] == 'addr' else None
+        root = bv
+        if root is not None and root[0] == 'mem':
+            root = root[2]
+        if root is not None and root[0] == 'call' and root[1].endswith('vec::from_elem'):
+            total = root[2][1]
+            if total[0] == 'bin' and total[1] == 'Add':
+                return total[2], total[3]
+        return None
+
     def d_copy(self, key, a, s):
         facts = self.facts
         bi, t = s['bi'], s['term']
@@ -740,6 +761,15 @@ class Discharger:
             lo, hi = dst[2][-1][1], dst[2][-1][2]
             if lo is None and hi == ('len', src):
                 return 'D8', 'destination is buf[..src.len()]'
+            if lo is not None and hi is None:
+                # buf[x..] of a Vec allocated with x + k bytes has k bytes
+                al = self._vec_alloc_summands(a, dst, p)
+                if al is not None and strip_sites(al[0]) == strip_sites(lo):
+                    k = al[1]
+                    if k[0] == 'call' and k[1] == 'Serializable::size' and k[4]:
+                        raws = [im['types']['OutputSize']['raw'] for im in facts.impls if im.get('trait') == 'Serializable' and im['self_ty'] == k[4][2]]
+                        if raws and n_src is not None and (n_src == raws[0] or n_src == typenum_usize(raws[0])):
+                            return 'D8', 'destination is the last Nt bytes of a Vec allocated as n + Nt, source is the Nt-byte tag'
             if lo is not None and hi is not None and hi[0] == 'bin' and hi[1] == 'Add' and strip_sites(hi[2]) == strip_sites(lo):
                 k = hi[3]
                 if k[0] == 'call' and k[1] == 'Serializable::size' and k[4]:
